@@ -37,6 +37,7 @@ use verif_harness::{Cfg, guarded};
 /// slack granted to every timing expectation
 const SLACK: Duration = Duration::from_secs(5);
 const DA_REPLY: &[u8] = b"\x1b[?62;4c";
+const SIZE_REPLY: &[u8] = b"\x1b[8;50;132t\x1b[4;1000;1320t";
 
 // ------------------------------------------------------------------------------------------------ script
 
@@ -150,6 +151,8 @@ struct Session {
     run_handler: Option<(usize, bool)>,
     /// selects the line settings installed on the pty before the terminal is opened
     termios: u64,
+    /// the peer answers the size queries, so that the terminal takes its size from escape sequences
+    size_esc: bool,
     label: String,
 }
 
@@ -158,7 +161,7 @@ impl Session {
         json!({
             "steps": self.steps.iter().map(|s| s.token()).collect::<Vec<_>>(),
             "drop_at": self.drop_at, "run_handler": self.run_handler.map(|(k, q)| json!([k, q])),
-            "termios": self.termios.to_string(), "label": self.label,
+            "termios": self.termios.to_string(), "size_esc": self.size_esc, "label": self.label,
         })
     }
     fn from_json(v: &Value) -> Option<Session> {
@@ -167,6 +170,7 @@ impl Session {
             drop_at: v["drop_at"].as_u64().map(|n| n as usize),
             run_handler: v["run_handler"].as_array().and_then(|a| Some((a.first()?.as_u64()? as usize, a.get(1)?.as_bool()?))),
             termios: v["termios"].as_str().and_then(|s| s.parse().ok()).unwrap_or(0),
+            size_esc: v["size_esc"].as_bool().unwrap_or(false),
             label: v["label"].as_str().unwrap_or("replay").to_string(),
         })
     }
@@ -302,6 +306,7 @@ struct Shared {
     /// line settings of the slave sampled by the peer at every DA1 query: (stream position, words)
     at_da: Mutex<Vec<(usize, Option<Vec<u32>>)>>,
     paused: AtomicBool,
+    answer_size: AtomicBool,
     stop: AtomicBool,
     last_data_ms: AtomicU64,
     origin: Instant,
@@ -335,25 +340,29 @@ fn peer(master: RawFd, keep: RawFd, shared: Arc<Shared>) {
             rec.len()
         };
         shared.last_data_ms.store(shared.origin.elapsed().as_millis() as u64, Ordering::SeqCst);
-        // DA1 query, possibly split over reads
+        // queries, possibly split over reads: DA1 `ESC [ c`, size `ESC [ 14 t` (the reply covers `ESC [ 18 t` too)
         tail.extend_from_slice(data);
-        let mut answers = 0;
         let mut i = 0;
-        while i + 3 <= tail.len() {
-            if &tail[i..i + 3] == b"\x1b[c" {
-                answers += 1;
+        let mut done = 0;
+        while i < tail.len() {
+            if tail[i..].starts_with(b"\x1b[c") {
+                shared.at_da.lock().unwrap().push((base, termios_words(keep)));
+                unsafe { libc::write(master, DA_REPLY.as_ptr() as *const libc::c_void, DA_REPLY.len()) };
                 i += 3;
+                done = i;
+            } else if tail[i..].starts_with(b"\x1b[14t") {
+                if shared.answer_size.load(Ordering::SeqCst) {
+                    unsafe { libc::write(master, SIZE_REPLY.as_ptr() as *const libc::c_void, SIZE_REPLY.len()) };
+                }
+                i += 5;
+                done = i;
             } else {
                 i += 1;
             }
         }
-        let keep_n = tail.len().min(2);
-        let t2 = tail[tail.len() - keep_n..].to_vec();
-        tail = if answers > 0 && t2.ends_with(b"c") { Vec::new() } else { t2 };
-        for _ in 0..answers {
-            shared.at_da.lock().unwrap().push((base, termios_words(keep)));
-            unsafe { libc::write(master, DA_REPLY.as_ptr() as *const libc::c_void, DA_REPLY.len()) };
-        }
+        // keep what may be the beginning of a query
+        let from = done.max(tail.len().saturating_sub(4));
+        tail = tail[from..].to_vec();
     }
 }
 
@@ -883,7 +892,7 @@ fn run_session(s: &Session) -> Outcome {
     let before = termios_words(keep);
     let shared = Arc::new(Shared {
         received: Mutex::new(Vec::new()), count: AtomicUsize::new(0), at_da: Mutex::new(Vec::new()),
-        paused: AtomicBool::new(false), stop: AtomicBool::new(false), last_data_ms: AtomicU64::new(0), origin: Instant::now(),
+        paused: AtomicBool::new(false), answer_size: AtomicBool::new(s.size_esc), stop: AtomicBool::new(false), last_data_ms: AtomicU64::new(0), origin: Instant::now(),
     });
     let peer_thread = {
         let shared = shared.clone();
@@ -1114,9 +1123,10 @@ fn run_session(s: &Session) -> Outcome {
             r.out.epilogue_checked = true;
             let tail = &received[send_before.min(received.len())..];
             let epi = epilogue_bytes(&caps);
-            if !received.ends_with(&epi) {
-                r.fail("the closing sequence did not reach the tty as the last output",
-                    format!("output ends with {}", String::from_utf8_lossy(&epi).escape_default()),
+            // (a size query may follow it when a SIGWINCH is handled while the terminal is being released)
+            if find(tail, &epi).is_none() {
+                r.fail("the closing sequence did not reach the tty",
+                    format!("output during drop contains {}", String::from_utf8_lossy(&epi).escape_default()),
                     format!("last bytes {}", String::from_utf8_lossy(&received[received.len().saturating_sub(epi.len() + 8)..]).escape_default()));
             }
             for need in EPILOGUE_REQUIRED {
@@ -1126,7 +1136,10 @@ fn run_session(s: &Session) -> Outcome {
                         String::from_utf8_lossy(&tail[tail.len().saturating_sub(64)..]).escape_default().to_string());
                 }
             }
-            if let Some((_, Some(words))) = at_da.iter().rev().find(|(pos, _)| *pos > send_before) {
+            // dispose waits for the peer's answer to the DA1 query that ends the closing sequence before it restores the
+            // settings — unless its wait ends early (termination signal pending: Err(Quit); 1 s without answer)
+            let waited_for_peer = r.term_raised.is_none() && r.out.drop_ms < 900;
+            if let (true, Some((_, Some(words)))) = (waited_for_peer, at_da.iter().rev().find(|(pos, _)| *pos > send_before)) {
                 if words[3] & (libc::ICANON as u32) != 0 && before.as_ref().is_some_and(|b| b[3] & (libc::ICANON as u32) != 0) {
                     r.fail("the line settings were restored before the closing sequence was delivered",
                         "raw mode while the peer reads the closing sequence".into(), words_token(words));
@@ -1207,7 +1220,7 @@ fn keys(rng: &mut Rng, n: usize) -> Vec<u8> {
 }
 
 fn sess(label: &str, steps: Vec<Step>, termios: u64) -> Session {
-    Session { steps, drop_at: None, run_handler: None, termios, label: label.to_string() }
+    Session { steps, drop_at: None, run_handler: None, termios, size_esc: termios % 5 == 0, label: label.to_string() }
 }
 
 /// the scripted session that is dropped at every step index
@@ -1239,7 +1252,7 @@ fn fixed_sessions(rng: &mut Rng) -> Vec<Session> {
         sess("wake-with-queued-events", vec![Keys(b"pqrs".to_vec(), 0), KeysSync, ms(5), WakeInline(1), z(), z(), z(), z()], rng.next()),
         // infinite time-out, woken by threads
         sess("poll-inf-1-thread", vec![WakeThreads(vec![vec![8000]]), Poll(Timeout::Inf)], rng.next()),
-        sess("poll-inf-8-threads", vec![WakeThreads((0..8).map(|i| vec![3000 + 700 * i, 50]).collect()), Poll(Timeout::Inf), Poll(Timeout::Inf)], rng.next()),
+        sess("poll-inf-8-threads", vec![WakeThreads((0..8).map(|i| vec![3000 + 700 * i, 50]).collect()), Poll(Timeout::Inf), Poll(Timeout::Ms(20))], rng.next()),
         sess("poll-inf-key", vec![Keys(b"k".to_vec(), 6000), Poll(Timeout::Inf)], rng.next()),
         // output pending while input, wake-ups and signals arrive
         sess("pending-output-winch", vec![PeerPause, Write(300_000, 5), Flush, ms(2), Winch, ms(10), PeerResume, ms(30), z()], rng.next()),
@@ -1287,9 +1300,8 @@ fn random_session(rng: &mut Rng, idx: u64) -> Session {
                     6 => Timeout::Ms(15 + rng.below(25)),
                     _ => if wake_guaranteed && !paused { Timeout::Inf } else { Timeout::Ms(1 + rng.below(5)) },
                 };
-                if t == Timeout::Inf {
-                    wake_guaranteed = false;
-                }
+                // an infinite time-out only directly after waker threads were started: any poll may consume the wake
+                wake_guaranteed = false;
                 steps.push(Poll(t));
             }
             5 => steps.push(WakeInline(1 + rng.below(4) as usize)),
@@ -1333,6 +1345,7 @@ fn random_session(rng: &mut Rng, idx: u64) -> Session {
                 if rng.chance(1, 5) && !terminated {
                     steps.push(Term(*rng.pick(&[libc::SIGTERM, libc::SIGINT, libc::SIGQUIT])));
                     steps.push(Poll(Timeout::Ms(3)));
+                    wake_guaranteed = false;
                     terminated = true;
                 }
             }
@@ -1377,10 +1390,10 @@ fn run_guarded(s: &Session) -> Result<Outcome, String> {
         let r = guarded(|| run_session(&s2));
         let _ = tx.send(r);
     });
-    match rx.recv_timeout(Duration::from_secs(90)) {
+    match rx.recv_timeout(Duration::from_secs(60)) {
         Ok(Ok(o)) => Ok(o),
         Ok(Err(())) => Err("the session panicked".into()),
-        Err(_) => Err("the session did not finish within 90 s (poll or drop never returned)".into()),
+        Err(_) => Err("the session did not finish within 60 s (poll or drop never returned)".into()),
     }
 }
 
@@ -1397,6 +1410,7 @@ fn report(out: &mut Out, tot: &mut Totals, s: &Session, res: Result<Outcome, Str
     out.case(&key, o.polls > 0 || !o.dropped_after.is_empty());
     out.hist(&format!("dropped-after:{}", o.dropped_after));
     out.hist(&format!("kind:{}", s.label.split('-').next().unwrap_or("?")));
+    out.hist(if s.size_esc { "size:escape-sequences" } else { "size:ioctl" });
     tot.polls += o.polls;
     tot.iterations += o.iterations;
     tot.retries += o.select_retries;
@@ -1473,7 +1487,7 @@ fn main() {
         }
     }
     let t0 = Instant::now();
-    let (target, budget) = if cfg.thorough { (6000u64, Duration::from_secs(780)) } else { (300u64, Duration::from_secs(55)) };
+    let (target, budget) = if cfg.thorough { (20000u64, Duration::from_secs(600)) } else { (300u64, Duration::from_secs(55)) };
     let mut all: Vec<Session> = fixed_sessions(&mut rng);
     let script = scripted();
     for i in 0..=script.len() {
@@ -1490,9 +1504,12 @@ fn main() {
                 break;
             }
         }
+        if out.failure_count >= 8 {
+            break;
+        }
     }
     let mut idx = 0u64;
-    while hung < 2 && tot.sessions < target && t0.elapsed() < budget && out.failure_count < 20 {
+    while hung < 2 && tot.sessions < target && t0.elapsed() < budget && out.failure_count < 8 {
         let s = random_session(&mut rng, idx);
         idx += 1;
         let r = run_guarded(&s);
